@@ -25,13 +25,13 @@ PROPS = {
     },
     "C04": {
         "title": "Everything runs exactly once and a completed run is quiescent",
-        "lean": ["TopsimProps.SysSafety", "TopsimProps.C19", "TopsimProofs.Bridge.Queries"],
+        "lean": ["TopsimProps.SysSafety", "TopsimProps.C04", "TopsimProps.C19", "TopsimProofs.Bridge.Queries"],
         "streams": [("default", 32, 500), ("adversary", 24, 400), ("chaotic", 16, 300), ("edge", 16, 300)],
         "monitor": ["C04"],
     },
     "C05": {
         "title": "Every feasible configuration terminates",
-        "lean": ["TopsimProps.C05", "TopsimProofs.Bridge.Admission", "TopsimProofs.Bridge.BufferArith"],
+        "lean": ["TopsimProps.C05", "TopsimProofs.Bridge.Admission", "TopsimProofs.Bridge.BufferArith", "TopsimProofs.Bridge.Sched"],
         "streams": [("feasible", 40, 800), ("tiering", 16, 200), ("samestep", 12, 150), ("edge", 32, 600)],
         "monitor": ["C05"],
     },
@@ -44,13 +44,13 @@ PROPS = {
     },
     "C07": {
         "title": "Buffer space is conserved and never over- or under-flows",
-        "lean": ["TopsimProps.C07", "TopsimProofs.Bridge.BufferArith"],
+        "lean": ["TopsimProps.C07", "TopsimProofs.Bridge.BufferArith", "TopsimProofs.Bridge.TierArith", "TopsimProofs.Bridge.Sched"],
         "streams": [("default", 32, 500), ("sequential", 16, 200), ("overcommit", 8, 60), ("edge", 24, 400)],
         "monitor": ["C07"],
     },
     "C08": {
         "title": "Observations start only when all resources are free, and on time when idle",
-        "lean": ["TopsimProps.C08", "TopsimProofs.Bridge.Admission"],
+        "lean": ["TopsimProps.C08", "TopsimProofs.Bridge.Admission", "TopsimProofs.Bridge.Sched"],
         "streams": [("default", 40, 600), ("contended", 16, 300), ("idlestart", 12, 150), ("edge", 32, 600)],
         "monitor": ["C08"],
     },
@@ -69,21 +69,21 @@ PROPS = {
     },
     "C11": {
         "title": "Pausing and resuming is transparent",
-        "lean": ["TopsimProps.Kernel"],
+        "lean": ["TopsimProps.Kernel", "TopsimProps.Pause"],
         "streams": [("runlevel-paused", 20, 300)],
         "direct": ["c11"],
         "monitor": ["C11"],
     },
     "C12": {
         "title": "The per-timestep table reports the true state, one row per step",
-        "lean": ["TopsimProps.C12", "TopsimProps.SysSafety"],
-        "streams": [("default", 32, 500), ("overlap", 16, 300), ("runlevel", 16, 300)],
+        "lean": ["TopsimProps.C12", "TopsimProps.SysSafety", "TopsimProps.Pause"],
+        "streams": [("default", 32, 500), ("overlap", 16, 300), ("runlevel", 16, 300), ("tierback", 12, 200), ("tiering", 8, 150)],
         "monitor": ["C12"],
     },
     "C13": {
         "title": "The event log is complete, correctly timed and causally ordered",
         "lean": ["TopsimProps.C13", "TopsimProps.Kernel"],
-        "streams": [("default", 32, 500), ("overlap", 16, 300), ("runlevel", 16, 300), ("runlevel-paused", 24, 400)],
+        "streams": [("default", 32, 500), ("overlap", 16, 300), ("runlevel", 16, 300), ("runlevel-paused", 24, 400), ("edge", 24, 400)],
         "monitor": ["C13"],
     },
     "C14": {
@@ -115,7 +115,7 @@ PROPS = {
     },
     "C18": {
         "title": "Moving an observation between buffer tiers conserves data",
-        "lean": ["TopsimProps.C18", "TopsimProofs.Bridge.BufferArith"],
+        "lean": ["TopsimProps.C18", "TopsimProofs.Bridge.BufferArith", "TopsimProofs.Bridge.TierArith"],
         "streams": [],
         "direct": ["c18"],
         "monitor": ["C18"],
